@@ -222,6 +222,38 @@ Proof.
   apply IH. intros a Ha. apply H. right. exact Ha.
 Qed.
 
+Lemma tget_app g1 g2 x : tget (g1 ++ g2) x = match tget g1 x with Some v => Some v | None => tget g2 x end.
+Proof. induction g1 as [|[k v] t IH]; cbn [app tget]; [reflexivity|]. destruct (name_eqb k x); [reflexivity|exact IH]. Qed.
+
+Lemma tget_in g x tk : tget g x = Some tk -> In x (map fst g).
+Proof.
+  induction g as [|[k v] t IH]; cbn [tget map fst In]; [discriminate|].
+  destruct (name_eqb k x) eqn:E; [apply name_eqb_eq in E; auto|auto].
+Qed.
+
+Lemma clobbers_prog_false evs : clobbers_prog (mkSP [] (map sev evs)) = false ->
+  forallb (fun ev => negb (clobbers (ev_flag ev)) && forallb (fun e => negb (clobbers e)) (ev_body ev)) evs = true.
+Proof.
+  unfold clobbers_prog. cbn [sp_events]. induction evs as [|ev r IH]; intros H; [reflexivity|].
+  cbn [map existsb sev se_cond se_body] in H. apply orb_false_iff in H. destruct H as [H1 H2].
+  apply orb_false_iff in H1. destruct H1 as [Hf Hb]. cbn [forallb]. rewrite Hf, (IH H2). cbn.
+  rewrite andb_true_r. clear - Hb. induction (ev_body ev) as [|e t IHt]; [reflexivity|].
+  cbn in *. apply orb_false_iff in Hb. destruct Hb as [H1 H2]. rewrite H1, (IHt H2). reflexivity.
+Qed.
+
+(* the built-in names of the typing environment have their registers, with value types *)
+Lemma builtin_tenv_regs : Forall (fun x => exists r, sc_get (sc_named scope_new) x = Some r /\ is_builtin x = true /\
+                                   (forall s, reg_type r <> TName s)) (map fst builtin_tenv).
+Proof.
+  vm_compute. repeat (constructor; [eexists; split; [reflexivity|split; [reflexivity|intros s; discriminate]]|]). constructor.
+Qed.
+
+Lemma new_scope_types : Forall (fun kv : name * reg => forall s, reg_type (snd kv) <> TName s) entries_new.
+Proof. vm_compute. repeat (constructor; [intros s; discriminate|]). constructor. Qed.
+
+Lemma combine_fst_snd {A B} (l : list (A * B)) : combine (map fst l) (map snd l) = l.
+Proof. induction l as [|[a b] t IH]; [reflexivity|]. cbn. f_equal. exact IH. Qed.
+
 Section Static.
   Variables (reports controls : list (bool * name * ty)) (sc1 sc0 scF : scope).
   Variables (evs : list event) (devs : list Lower.devent) (eis : list instr) (image : list N).
@@ -520,5 +552,60 @@ Section Static.
     pose proof (sc0_get_report _ _ _ _ E) as G. destruct (sextF _ _ G) as (r' & GF & Hdr).
     exists r'. split; [exact GF|]. rewrite (dreg_slot _ _ Hdr). reflexivity.
   Qed.
+
+
+  Lemma decl_tenv_eq : decl_tenv decls tys =
+    map (fun dt : sdecl * vty => (sd_name (fst dt), (snd dt, if sd_report (fst dt) then KReport else KControl))) (decls_of_scope sc0).
+  Proof.
+    unfold decl_tenv, decls, tys. rewrite combine_fst_snd. reflexivity.
+  Qed.
+
+  Lemma literal_type x r : In (x, r) (decl_entries reports controls) -> forall s, reg_type r <> TName s.
+  Proof.
+    intros Hin s. destruct (perm_entry_facts _ _ Hin) as (i & _ & _ & Hd & _).
+    destruct r as [j ty vol|n|b|j ty|j ty|j ty|j ty vol|j ty|]; try discriminate Hd;
+      destruct ty as [[b|]|s0|[n|]|]; try discriminate Hd; discriminate.
+  Qed.
+
+  Lemma Hlink_F : link (decl_tenv decls tys ++ builtin_tenv) (sc_named sc0).
+  Proof.
+    intros x tk Hx. rewrite tget_app in Hx.
+    destruct (tget (decl_tenv decls tys) x) as [v|] eqn:E.
+    - apply tget_in in E. rewrite decl_tenv_eq, map_map in E. cbn [fst] in E.
+      rewrite decls_entries, map_map in E. apply in_map_iff in E. destruct E as ([y r] & Hy & Hin).
+      rewrite decl_of_name in Hy. cbn [fst] in Hy. subst y.
+      exists r. split; [exact (decl_entry_in_sc0 _ Hin)|exact (literal_type _ _ Hin)].
+    - apply tget_in in Hx. pose proof builtin_tenv_regs as B. rewrite Forall_forall in B.
+      destruct (B _ Hx) as (r & Hg & Hb & Ht).
+      destruct wt_clauses as (_ & Hnd & Hnb & _).
+      destruct (declarations_scope _ _ _ _ Hd1 Hd2 Hnd (fun m Hm => proj2 (Hnb m Hm))) as (_ & _ & Hbi & _).
+      exists r. split; [rewrite (Hbi _ Hb); exact Hg|exact Ht].
+  Qed.
+
+  Lemma Htn_F : tname_ok (sc_named sc0).
+  Proof.
+    intros x r s Hg Ht. exfalso. apply get_in in Hg.
+    destruct (declare_control_in _ _ _ Hd2 _ Hg) as [Hin1|(v & n & t & i & He & _)].
+    - destruct (declare_report_in _ _ _ Hd1 _ Hin1) as [Hin0|(v & n & t & i & He & _)].
+      + pose proof new_scope_types as T. rewrite Forall_forall in T. exact (T _ Hin0 s Ht).
+      + inversion He; subst. exact (literal_type _ _ (sc0_perm_entry _ _ Hg I) s Ht).
+    - inversion He; subst. exact (literal_type _ _ (sc0_perm_entry _ _ Hg I) s Ht).
+  Qed.
+
+  Lemma Hfirst_F : exists e0 rest, eis = e0 :: rest /\ not_def (dinstr_of e0).
+  Proof.
+    destruct wt_clauses as (_ & _ & _ & Hne & _).
+    destruct evs as [|ev r]; [congruence|]. cbn [compile_events] in Hev.
+    apply bind_ok_inv in Hev. destruct Hev as ([fi sc1'] & Hf & H).
+    apply bind_ok_inv in H. destruct H as ([bi sc2'] & Hb & H).
+    apply bind_ok_inv in H. destruct H as ([[evs' is'] sc3'] & Hr & H). inversion H; subst devs eis scF.
+    destruct (compile_flag_nonempty _ _ _ _ Hf) as [Hlen _].
+    pose proof (compile_flag_no_def _ _ _ _ Hf) as Hnd.
+    destruct fi as [|e0 fr]; [cbn in Hlen; lia|]. inversion Hnd as [|? ? He0 _]; subst.
+    exists e0, (fr ++ bi ++ is'). split; [reflexivity|]. unfold not_def, dinstr_of. cbn [di_op]. apply opcode_def. exact He0.
+  Qed.
+
+  Lemma Hcl_F : forallb (fun ev => negb (clobbers (ev_flag ev)) && forallb (fun e => negb (clobbers e)) (ev_body ev)) evs = true.
+  Proof. apply clobbers_prog_false. exact Hcl. Qed.
 
 End Static.
